@@ -3,7 +3,8 @@ sys.path.insert(0, os.path.join(os.path.dirname(os.path.dirname(os.path.abspath(
 import vcheck
 
 T = "GeomV.C10."
-TIES = ["LongLat", "Merc", "TMerc", "UTM", "LCC", "AEA", "EqdC", "Krovak", "Registered", "Path"]
+TIES = ["LongLat", "Merc", "TMerc", "UTM", "LCC", "AEA", "EqdC", "Krovak", "Registered", "Path", "Datum"]
+CTORS = ["LongLat", "Merc", "TMerc", "UTM", "LCC", "AEA", "EqdC", "Krovak"]
 
 
 def pregen(check):
@@ -12,22 +13,25 @@ def pregen(check):
     on a transformer's call path the fields it assigns through its *SR/*datum parameters.  The tie modules
     GeomV.C10.Ties.<Ctor> compare them with the model's write sets; a difference fails `lake build` of the
     module named after the constructor."""
-    out = os.path.join(vcheck.LEAN, "GeomV", "C10", "GenWrites.lean")
-    with vcheck.Lock("go"):
-        p = subprocess.run(["go", "run", "./cmd/c10/astwrites", os.path.join(vcheck.REPO, "proj")], cwd=vcheck.HARNESS,
-                           env=vcheck.GOENV, stdout=subprocess.PIPE, stderr=subprocess.PIPE, text=True)
-    if p.returncode != 0 or "namespace GeomV.C10.Gen" not in p.stdout:
-        check.broken.append("write-set extractor failed on %s/proj: %s" % (vcheck.REPO, p.stderr.strip()[-300:]))
-        return
-    old = open(out).read() if os.path.exists(out) else ""
-    if old != p.stdout:
-        open(out, "w").write(p.stdout)
-        vcheck.log("C10: GenWrites.lean regenerated (write sets of the Go source changed)")
+    for mode, fname, marker in (("writes", "GenWrites.lean", "namespace GeomV.C10.Gen"),
+                                ("bodies", "GenBodies.lean", "def ctorBodies"),
+                                ("datum", "GenDatum.lean", "def datumShape")):
+        out = os.path.join(vcheck.LEAN, "GeomV", "C10", fname)
+        with vcheck.Lock("go"):
+            p = subprocess.run(["go", "run", "./cmd/c10/astwrites", os.path.join(vcheck.REPO, "proj"), mode], cwd=vcheck.HARNESS,
+                               env=vcheck.GOENV, stdout=subprocess.PIPE, stderr=subprocess.PIPE, text=True)
+        if p.returncode != 0 or marker not in p.stdout:
+            check.broken.append("source extractor (%s) failed on %s/proj: %s" % (mode, vcheck.REPO, p.stderr.strip()[-300:]))
+            return
+        old = open(out).read() if os.path.exists(out) else ""
+        if old != p.stdout:
+            open(out, "w").write(p.stdout)
+            vcheck.log("C10: %s regenerated (the Go source's extract changed)" % fname)
 
 
 CFG = {
     "id": "C10",
-    "lean_modules": ["GeomV.C10.Proofs"] + ["GeomV.C10.Ties." + t for t in TIES],
+    "lean_modules": ["GeomV.C10.Proofs", "GeomV.C10.ProofsSrc", "GeomV.C10.ProofsDatum"] + ["GeomV.C10.Ties." + t for t in TIES],
     "pregen": pregen,
     "exe": "geomv_c10",
     "go_cmd": "c10",
@@ -37,7 +41,9 @@ CFG = {
         "C10_pure", "C10_pure_last", "C10_pure_states", "C10_history_state", "C10_step_state_eq",
         "C10_no_index_fault", "C10_no_panic", "C10_input_unchanged",
         "C10_init_idempotent", "C10_init_frame", "C10_CoreOK_ctors", "C10_pure_ctors",
-    ]] + [T + "tie_" + t for t in TIES] + [T + n for n in [
+    ]] + [T + "tie_" + t for t in TIES] + [T + "tie_body_" + t for t in CTORS] + [T + n for n in [
+        "C10_src_init_total", "C10_src_init_idempotent", "C10_src_init_frame",
+        "C10_datum_frame", "C10_datum_pure", "C10_datum_history",
     ]],
     "trusted_base": [
         "Lean 4.33.0 kernel; axioms of every theorem printed by #print axioms must be within {propext, Classical.choice, Quot.sound}",
